@@ -163,10 +163,14 @@ CLAIMS = {
              "exact, one check suffices for a batch of input edges). The first group follows from a generic theorem: "
              "any predicate preserved by the primitive writes is an invariant of every history. The creator-cycle "
              "guard rejects reattaching a node below itself; detaching the root is rejected. An UNDECLARED file is detached and has "
-             "no creator after every history (I3). The remaining clauses (succeeded => outputs built, no internal "
-             "error) are evaluated by an SQL-free oracle on the real database after every generated request.",
-        note=BASE_NOTE + "The whole K layer is a model (SQL statements, triggers, recursive CTEs modelled by hand). I4 "
-             "(SUCCEEDED => outputs BUILT) holds per director transaction and is decided on simulated builds (C01/C05). "
+             "no creator after every history (I3). Every attached output of a SUCCEEDED step is BUILT or VOLATILE after "
+             "every history whose requests satisfy four named side conditions (I4; 20 of 24 request kinds unconditional; "
+             "each side condition has a kernel-checked counterexample replayed on the real code). The remaining clause (no "
+             "internal error) and all of the above are evaluated by an SQL-free oracle on the real database after every "
+             "generated request.",
+        note=BASE_NOTE + "The whole K layer is a model (SQL statements, triggers, recursive CTEs modelled by hand). That the "
+             "director only issues requests satisfying the side conditions of I4 and of the hold guard is read in the code, "
+             "not verified (whole simulated builds, C01/C05, exercise it). "
              "Known: internal ConsistencyError when a static declaration collides with a foreign file under a static "
              "tree that a recycle re-attached (consequence of the C08 finding F21).",
         technique="Lean 4 proof (invariants by induction over request histories, generic in the predicate) + kernel "
